@@ -240,3 +240,52 @@ Definition stream_ids (ss : list (string * list string * option N)) : list strin
 (* the canonical schedule: source 0 to the end, then source 1, ... *)
 Definition seq_sched (srcs : list (list string * option N)) : list nat :=
   flat_map (fun p => repeat (fst p) (S (List.length (fst (snd p))))) (combine (seq 0 (List.length srcs)) srcs).
+
+(* ---- call options ---------------------------------------------------------------------- *)
+(* getToolsNodeOptions and the first lines of Invoke / Stream (277-285, 312-320):
+   WithToolList (a non-nil list) replaces, for this call only, the tool set built by
+   NewToolNode (convTools on the given list; nothing of the configured set is consulted, the
+   unknown-tool handler stays the node's); the WithToolOption values, in the order given, are
+   handed to every tool execution — the inline task and the goroutine tasks alike — and not to
+   the unknown-tool handler (its function has no option parameter).
+   [O] is whatever the tool options carry; a tool is a function of the options it is handed. *)
+Section CallOptions.
+  Variable O : Type.
+
+  Record toolset : Type := mkTS {
+    ts_kind : string -> option tkind;
+    ts_inv : O -> string -> string -> tres;
+    ts_str : O -> string -> string -> sres }.
+
+  Record callopts : Type := mkCO { co_list : option toolset; co_opts : O }.
+
+  Variable cfg : toolset.
+  Variable handler : option (string -> string -> tres).
+
+  Definition eff_tools (o : callopts) : toolset :=
+    match co_list o with Some ts => ts | None => cfg end.
+
+  Definition tools_invoke_with (o : callopts) (pi : list nat) (role_ok : bool) (calls : list call)
+    : res (list tmsg) :=
+    let ts := eff_tools o in
+    tools_invoke (ts_kind ts) (ts_inv ts (co_opts o)) (ts_str ts (co_opts o)) handler pi role_ok calls.
+
+  Definition tools_stream_open_with (o : callopts) (pi : list nat) (role_ok : bool) (calls : list call)
+    : res (list tstream) :=
+    let ts := eff_tools o in
+    tools_stream_open (ts_kind ts) (ts_inv ts (co_opts o)) (ts_str ts (co_opts o)) handler pi role_ok calls.
+
+  Definition tools_executed_with (o : callopts) (role_ok : bool) (calls : list call) : list call :=
+    tools_executed (ts_kind (eff_tools o)) handler role_ok calls.
+End CallOptions.
+Arguments mkTS {O} _ _ _.
+Arguments ts_kind {O} _ _.
+Arguments ts_inv {O} _ _ _ _.
+Arguments ts_str {O} _ _ _ _.
+Arguments mkCO {O} _ _.
+Arguments co_list {O} _.
+Arguments co_opts {O} _.
+Arguments eff_tools {O} _ _.
+Arguments tools_invoke_with {O} _ _ _ _ _ _.
+Arguments tools_stream_open_with {O} _ _ _ _ _ _.
+Arguments tools_executed_with {O} _ _ _ _ _.
